@@ -14,6 +14,7 @@ def dispatch (j : Json) : R Json := do
   | "static" => DStatic.handle j
   | "none" => pure (jObj [])
   | "csv" => DStatic.handleCsv j
+  | "float" => DStatic.handleFloat j
   | "dirsrc" => DJournal.handleDir j
   | "export" => DJournal.handleExport j
   | k => throw s!"unknown kind {k}"
